@@ -455,7 +455,7 @@ class ProgGen:
         # signatures of functions being generated (recursion) as stub funcs
         done = {(f[2], tuple(p[0] for p in f[3])) for f in self.funcs}
         out = []
-        for name, ptypes, ret, _ in list(self.sigs) + ([self.rec_stub] if getattr(self, 'rec_stub', None) else []):
+        for name, ptypes, ret, _ in list(getattr(self, 'planned', [])) + list(self.sigs):
             if (name, tuple(ptypes)) not in done:
                 out.append(('func', ret, name, tuple((t, f'p{i}') for i, t in enumerate(ptypes)),
                             ('block', ())))
@@ -806,30 +806,40 @@ class ProgGen:
         return ('ret', e)
 
     # --------------------------------------------------------------- functions
+    def plan_helpers(self):
+        """Signatures of all helpers are fixed before any body is generated, so that
+        overload resolution inside every body already sees the complete overload sets."""
+        r = self.rnd
+        self.planned = []
+        for i in range(self.cfg['n_funcs']):
+            idx = i + 1
+            ret = r.choice(['empty', 'int', 'int'] + (['byte'] if self.feat('bytes') else []) +
+                           (['bool'] if self.feat('bools') else []) + (['string'] if self.feat('strings') else []))
+            name = f'f{idx}'
+            nparams = r.randrange(0, 4)
+            ptypes = []
+            for _ in range(nparams):
+                if self.feat('arrays') and self.chance(0.3):
+                    ptypes.append(arr(r.choice(self.elem_types()), self.chance(0.5)))
+                else:
+                    ptypes.append(r.choice(self.scalar_types()))
+            if self.feat('overloads') and self.planned and self.chance(0.4):
+                base = r.choice(self.planned)
+                if tuple(ptypes) not in [s[1] for s in self.planned if s[0] == base[0]]:
+                    name = base[0]
+            recursive = self.feat('recursion') and self.chance(0.3)
+            if recursive:
+                ptypes = ['int'] + ptypes
+            if any(s[0] == name and s[1] == tuple(ptypes) for s in self.planned):
+                name = f'f{idx}x'
+            self.planned.append((name, tuple(ptypes), ret, 'rec' if recursive else ''))
+
     def gen_helper(self, idx):
         r = self.rnd
-        ret = r.choice(['empty', 'int', 'int'] + (['byte'] if self.feat('bytes') else []) +
-                       (['bool'] if self.feat('bools') else []) + (['string'] if self.feat('strings') else []))
-        name = f'f{idx}'
-        nparams = r.randrange(0, 4)
-        ptypes = []
-        for _ in range(nparams):
-            if self.feat('arrays') and self.chance(0.3):
-                ptypes.append(arr(r.choice(self.elem_types()), self.chance(0.5)))
-            else:
-                ptypes.append(r.choice(self.scalar_types()))
-        overload_of = None
-        if self.feat('overloads') and self.sigs and self.chance(0.4):
-            # same name, different parameter list
-            base = r.choice(self.sigs)
-            if tuple(ptypes) not in [s[1] for s in self.sigs if s[0] == base[0]]:
-                name = base[0]
-        recursive = self.feat('recursion') and self.chance(0.3)
-        if recursive:
-            ptypes = ['int'] + ptypes
-        if any(s[0] == name and s[1] == tuple(ptypes) for s in self.sigs):
-            name = f'f{idx}x'
-        sig = (name, tuple(ptypes), ret, 'rec' if recursive else '')
+        name, ptypes, ret, flag = self.planned[idx - 1]
+        ptypes = list(ptypes)
+        recursive = flag == 'rec'
+        sig = (name, tuple(ptypes), ret, flag)
         self.scopes = [{}]
         pnames = []
         for i, t in enumerate(ptypes):
@@ -838,7 +848,7 @@ class ProgGen:
             self.declare(pn, V(t, length=None, fixed=(recursive and i == 0)))
         self.cur_ret = ret
         self.cur_ret_ok = True
-        self.rec_stub = sig if recursive else None
+        self.rec_stub = sig      # the function under construction takes part in overload resolution
         d = self.cfg['expr_depth']
         stmts = []
         if recursive:
@@ -1017,6 +1027,7 @@ class ProgGen:
             self.extra_funcs.append(('func', 'int', 'bump', (('int', 'm'),), ('block', (
                 ('set', ('var', 'gix'), ('bin', '%', ('bin', '+', ('var', 'gix'), ('int', 1)), ('var', 'm'))),
                 ('ret', ('bin', '+', ('var', 'gix'), ('int', 41)))))))
+        self.plan_helpers()
         for i in range(self.cfg['n_funcs']):
             self.gen_helper(i + 1)
         self.gen_entry()
